@@ -174,7 +174,8 @@ def write_evidence(prop: str, tier: str, seed: int, ctx: Optional[Ctx], mod, wal
     return path
 
 
-def run(prop: str, tier: str, quiet: bool = False, repo_root: Optional[str] = None, write: bool = True):
+def run(prop: str, tier: str, quiet: bool = False, repo_root: Optional[str] = None, write: bool = True,
+        sources: Optional[Dict[str, str]] = None):
     """Returns (exit_code, findings, ctx)."""
     t0 = time.time()
     seed = int(os.environ.get("VERIF_SEED", "0") or 0)
@@ -186,7 +187,7 @@ def run(prop: str, tier: str, quiet: bool = False, repo_root: Optional[str] = No
         return 2, [], None
     ctx = None
     try:
-        repo = Repo(repo_root) if repo_root else Repo()
+        repo = Repo(repo_root or os.environ.get('SWEETPEA_REPO', '/repo'), sources=sources)
         ctx = Ctx(prop, tier, repo)
         mod.check(ctx)
     except AnalysisError as e:
